@@ -4,8 +4,9 @@
    applies to the compressor's output.  (The property stops at 16 MiB; inputs that large cannot be run in
    the quick tier, so the extended form of large payloads is covered by this theorem only.) *)
 From Coq Require Import List NArith ZArith Arith Lia Bool ZifyBool ZifyNat ZifyN.
-From Mila Require Import Lib.Bytes Lib.Machine Model.LZCore Model.LZ11 Model.LZSpec Model.LZDecode
-  Proofs.LZBits Proofs.LZCoreProofs Proofs.LZTokens Proofs.LZ11Proofs Proofs.LZDecodeProofs Proofs.LZConforming.
+From Mila Require Import Lib.Bytes Lib.Machine Model.LZCore Model.LZ11 Model.LZ13Machine Model.LZCompressMachine Model.LZSpec Model.LZDecode
+  Proofs.LZBits Proofs.LZCoreProofs Proofs.LZTokens Proofs.LZEmitProofs Proofs.LZSpecProofs Proofs.LZ11Proofs Proofs.LZDecodeProofs Proofs.LZConforming
+  Proofs.LZ13MachineProofs Proofs.LZCompressMachineProofs.
 Import ListNotations.
 Ltac Zify.zify_post_hook ::= Z.div_mod_to_equations.
 Local Open Scope N_scope.
@@ -51,4 +52,62 @@ Proof.
   - intros m'.
     destruct (decode_conforming m' V11 (ext_form (lenN x)) (tokens 4096 x) (lenN x) Hv Ht Hfit) as (x' & Hex & _ & _ & _ & Hwr & _).
     rewrite (tokens_expand 4096 x) in Hex. injection Hex as <-. apply Hwr.
+Qed.
+
+(* ---- the same for ANY value of the three wrapper length bytes: the decoder never looks at them.  This is what
+   makes the round trip independent of calculate_lz13_header, whose list model is proved equal to the
+   machine-level one only below 2^31 bytes. ---- *)
+Lemma emit13_enc h n x :
+  emit_loop tok11 (header13 h n) (tokens 4096 x) = header13 h n ++ enc_body (senc V11) (tokens 4096 x).
+Proof.
+  rewrite emit_loop_enc. f_equal. apply enc_body_ext.
+  eapply Forall_impl; [|apply tokens_ranges]. intros t Ht. apply tok11_senc. exact Ht.
+Qed.
+
+Theorem lz13_stream_round_trip h x : wfb x -> lenN x < 2 ^ 32 ->
+  exists a b c s, emit_loop tok11 (header13 h (lenN x)) (tokens 4096 x) = 0x13 :: a :: b :: c :: s /\
+    sparse11 s = Some (lenN x, tokens 4096 x) /\
+    forall m', lz13_decompress m' (0x13 :: a :: b :: c :: s) = Ok x.
+Proof.
+  intros Hw Hn. rewrite emit13_enc, (header13_sheader h (lenN x) Hn). unfold le24. cbn [app].
+  pose proof (tokens_valid V11 4096 x Hw ltac:(cbn; lia)) as Hv.
+  assert (Ht : N.of_nat (total_len (tokens 4096 x)) = lenN x) by (rewrite tokens_total; reflexivity).
+  pose proof (ext_form_fits (lenN x) Hn) as Hfit.
+  do 4 eexists. split; [reflexivity|]. split.
+  - exact (sparse_enc V11 (ext_form (lenN x)) (tokens 4096 x) (lenN x) Hv Ht Hfit).
+  - intros m'.
+    destruct (decode_conforming m' V11 (ext_form (lenN x)) (tokens 4096 x) (lenN x) Hv Ht Hfit) as (x' & Hex & _ & _ & _ & Hwr & _).
+    rewrite (tokens_expand 4096 x) in Hex. injection Hex as <-. apply Hwr.
+Qed.
+
+(* the exported function (list model with the guard of F21): every byte string below 4 GiB round-trips, every
+   longer input is rejected *)
+Theorem compress13_o_round_trip m x : wfb x -> lenN x < 2 ^ 32 ->
+  exists c, compress13_o m x = Ok c /\ forall m', lz13_decompress m' c = Ok x.
+Proof.
+  intros Hw Hn. unfold compress13_o. rewrite (too_large13_false x Hn).
+  destruct (compress13_round_trip_ext m x Hw Hn) as (a & b & c & s & Hc & _ & Hd). eauto.
+Qed.
+
+Theorem compress13_o_rejects m x : 2 ^ 32 <= lenN x -> compress13_o m x = Err ETooLarge.
+Proof. intros H. unfold compress13_o. rewrite (too_large13_true x H). reflexivity. Qed.
+
+Lemma compress13_o_small m x : lenN x < 2 ^ 32 -> compress13_o m x = compress13 m x.
+Proof. intros H. unfold compress13_o. rewrite (too_large13_false x H). reflexivity. Qed.
+
+Lemma compress13_o_ok_inv m x c : compress13_o m x = Ok c -> lenN x < 2 ^ 32 /\ compress13 m x = Ok c.
+Proof.
+  unfold compress13_o, too_large13. change (2 ^ 32) with 4294967296.
+  destruct (N.ltb_spec 4294967295 (lenN x)) as [Hb|Hs]; [discriminate|]. intros Hc. split; [lia | exact Hc].
+Qed.
+
+(* the machine-level model (header value, reservation, loops with checked indexing): the same round trip, for
+   every byte string below 4 GiB - in particular between 2^31 and 2^32 bytes, where the list model's wrapper
+   length bytes are not proved equal to the code's *)
+Theorem compress13_mm_round_trip m x : wfb x -> lenN x < 2 ^ 32 ->
+  exists c, compress13_mm m x = Ok c /\ forall m', lz13_decompress m' c = Ok x.
+Proof.
+  intros Hw Hn. destruct (compress13_mm_ok m x Hn) as [h Hc].
+  destruct (lz13_stream_round_trip h x Hw Hn) as (a & b & c & s & He & _ & Hd).
+  rewrite He in Hc. eauto.
 Qed.
